@@ -228,7 +228,29 @@ pub fn gen_case(r: &mut Rng) -> AppCase {
     if r.chance(10) {
         inits.push(("ZZZ".to_string(), Decimal::new(5, 0), Decimal::new(50, 0)));
     }
-    let rows = interleave(r, lists);
+    let mut rows = interleave(r, lists);
+    // the rows need not come in date order, nor the files in date ranges: any order that keeps the
+    // relative order of the rows of one security settling on the same day gives the same report
+    if r.chance(30) && rows.len() > 2 {
+        let n = rows.len();
+        let mut key: Vec<u64> = (0..n).map(|_| r.below(1_000_000)).collect();
+        let mut classes: HashMap<(String, i32), Vec<usize>> = HashMap::new();
+        for (i, t) in rows.iter().enumerate() {
+            classes.entry((t.security.clone(), jd(t.settlement_date))).or_default().push(i);
+        }
+        let mut cls: Vec<Vec<usize>> = classes.into_values().collect();
+        cls.sort();
+        for members in cls {
+            let mut ks: Vec<u64> = members.iter().map(|i| key[*i]).collect();
+            ks.sort();
+            for (m, k) in members.iter().zip(ks) {
+                key[*m] = k;
+            }
+        }
+        let mut order: Vec<usize> = (0..n).collect();
+        order.sort_by_key(|i| (key[*i], *i));
+        rows = order.into_iter().map(|i| rows[i].clone()).collect();
+    }
     let mut cuts = Vec::new();
     if r.chance(40) && rows.len() > 1 {
         let mut left = rows.len();
